@@ -159,6 +159,11 @@ fn parse_rendered_full(src: &str) -> Vec<(String, Vec<(String, String, String)>)
 
 
 // ------------------------------------------------------------------------------------------------ rendered schema vs oracle
+fn local(n: &str) -> String {
+    if n.starts_with("xmlns:") { return n.to_string(); }
+    match n.find(':') { Some(i) => n[i + 1..].to_string(), None => n.to_string() }
+}
+
 /// Compare the RENDERED structs with the oracle schema: for every position the attribute fields (Option iff not on every
 /// occurrence), the text field, the child fields (Option iff not in every occurrence, Vec iff somewhere more than once),
 /// String-typing of text-only children, one struct per other position.  `exact` = C03 (iff), otherwise C01 (soundness:
@@ -173,13 +178,16 @@ fn cmp_rendered(out: &str, s: &oracle::S, exact: bool) -> Option<String> {
         !n.is_empty() && n.chars().all(|c| c.is_ascii_lowercase() || c.is_ascii_digit()) && n.chars().next().unwrap().is_ascii_lowercase()
             && !["type", "self", "crate", "loop", "text", "as", "in", "fn", "if", "mod", "use", "pub", "ref", "box", "do", "dyn", "try", "for", "let", "mut", "impl", "move", "else", "enum", "true", "false", "match", "super", "trait", "where", "while", "async", "await", "break", "const", "macro", "yield", "static", "struct", "unsafe", "extern", "return", "typeof", "unsized", "virtual", "abstract", "continue", "override", "priv", "final", "become"].contains(&n)
     }
+    fn ok_name(n: &str) -> bool {
+        if let Some(rest) = n.strip_prefix("xmlns:") { return plain(rest); }
+        match n.find(':') { Some(i) => plain(&n[..i]) && plain(&n[i + 1..]), None => plain(n) }
+    }
     fn all_plain(s: &oracle::S) -> bool {
-        let mut names: Vec<&String> = s.attrs.iter().map(|(_, a)| a).collect();
-        names.extend(s.kids.iter().map(|(_, _, k)| &k.name));
-        let mut d = names.clone();
-        d.sort();
-        d.dedup();
-        d.len() == names.len() && names.iter().all(|n| plain(n)) && s.kids.iter().all(|(_, _, k)| all_plain(k))
+        let a: Vec<String> = s.attrs.iter().map(|(_, a)| local(a)).collect();
+        let k: Vec<String> = s.kids.iter().map(|(_, _, k)| local(&k.name)).collect();
+        let distinct = |v: &Vec<String>| { let mut d = v.clone(); d.sort(); let n = d.len(); d.dedup(); d.len() == n };
+        distinct(&a) && distinct(&k) && !a.iter().any(|x| k.contains(x))
+            && s.attrs.iter().all(|(_, n)| ok_name(n)) && s.kids.iter().all(|(_, _, c)| ok_name(&c.name)) && s.kids.iter().all(|(_, _, k)| all_plain(k))
     }
     if !all_plain(s) {
         return None;
@@ -197,10 +205,10 @@ fn cmp_rendered(out: &str, s: &oracle::S, exact: bool) -> Option<String> {
         let fields = &defs[0].1;
         let mut used = vec![false; fields.len()];
         for (m, a) in &s.attrs {
-            let key = format!("@{a}");
+            let key = format!("@{}", local(a));
             let hits: Vec<usize> = fields.iter().enumerate().filter(|(_, f)| f.2 == key).map(|(i, _)| i).collect();
             if hits.len() != 1 {
-                return Some(format!("{p}: {} fields for attribute {a:?} in struct {sname}", hits.len()));
+                return Some(format!("{p}: {} fields bound to the XML name of attribute {a:?} (expected serde name {key:?}) in struct {sname}", hits.len()));
             }
             used[hits[0]] = true;
             let ty = &fields[hits[0]].1;
@@ -223,9 +231,10 @@ fn cmp_rendered(out: &str, s: &oracle::S, exact: bool) -> Option<String> {
             used[i] = true;
         }
         for (m, st, k) in &s.kids {
-            let hits: Vec<usize> = fields.iter().enumerate().filter(|(_, f)| f.2 == k.name).map(|(i, _)| i).collect();
+            let kl = local(&k.name);
+            let hits: Vec<usize> = fields.iter().enumerate().filter(|(_, f)| f.2 == kl).map(|(i, _)| i).collect();
             if hits.len() != 1 {
-                return Some(format!("{p}: {} fields for child {:?} in struct {sname}", hits.len(), k.name));
+                return Some(format!("{p}: {} fields bound to the XML name of child {:?} in struct {sname}", hits.len(), k.name));
             }
             used[hits[0]] = true;
             let ty = fields[hits[0]].1.as_str();
@@ -332,7 +341,13 @@ fn check_docs(prop: &str, docs: &[Vec<u8>]) -> Option<String> {
             }
             render_order(&root, &infer(&occ))
         }
-        "C16" => uniq_deep(&v, ""),
+        "C16" => {
+            if let Some(e) = uniq_deep(&v, "") {
+                return Some(e);
+            }
+            // renderer-vs-tree conformance on a tree of any shape and depth (here: built by the parser through the same operations)
+            cmp_rendered(&root.to_serde_struct(&Options::quick_xml_de()), &s_from_v(&v), true).map(|e| format!("the rendering does not reflect the tree: {e}"))
+        }
         _ => None,
     }
 }
@@ -607,7 +622,7 @@ fn prefixed_docs(seed: u64, n: usize) -> Vec<Vec<Vec<u8>>> {
     // children and attributes whose qualified-name order differs from their local-name order
     let mut rng = Rng(seed ^ 0xc09);
     let names = ["z:alpha", "b:zeta", "m", "k:beta", "plain", "a:omega"];
-    let attrs = ["z:p", "a:q", "n", "y:a"];
+    let attrs = ["z:p", "a:q", "n", "y:a", "ns:id", "s:must", "lns:w", "mlns:v", "xmlns:ns"];
     let mut out = Vec::new();
     for _ in 0..n {
         let k = 1 + rng.below(2);
@@ -640,7 +655,7 @@ fn search_tree_prop(prop: &str, tier: &str, seed: u64) {
     let mut stats = Stats::new();
     let mut sample = String::new();
     let mut found = false;
-    if prop == "C09" {
+    if prop == "C09" || prop == "C01" || prop == "C03" {
         for xs in prefixed_docs(seed, if tier == "thorough" { 5000 } else { 600 }) {
             let key = xs.iter().map(|x| String::from_utf8_lossy(x).into_owned()).collect::<Vec<_>>().join("\u{1}");
             stats.note(&key);
@@ -1559,7 +1574,30 @@ fn check_ops(ops: &[String]) -> Option<String> {
         let (o, arg) = op.split_once(':').unwrap_or((op.as_str(), ""));
         let name = arg.to_string();
         match o {
-            "add" | "addw" => {
+            "down" => {
+                // move the root's child `name` below the root's child "b" (a deeper tree: names recur at several positions)
+                if name != "b" && root.get_child(&"b".to_string()).is_some() {
+                    if let Some(n) = root.remove_child(&name) {
+                        if let Some(i) = model.iter().position(|k| k.name == name) {
+                            model.remove(i);
+                        }
+                        if let Some(b) = root.get_child_mut(&"b".to_string()) {
+                            b.inner_t_mut().add_unique_child(n.into_inner_t());
+                        }
+                    }
+                }
+            }
+            "cmul" => {
+                if let Some(c) = root.get_child_mut(&name) {
+                    c.inner_t_mut().set_multiple();
+                }
+            }
+            "ctext" => {
+                if let Some(c) = root.get_child_mut(&name) {
+                    c.inner_t_mut().text = Some("t".to_string());
+                }
+            }
+            "add" | "addw" | "addn" => {
                 fresh += 1;
                 let id = format!("id{fresh}");
                 // "addw": a child with seven attributes (the identifying one first)
@@ -1570,7 +1608,8 @@ fn check_ops(ops: &[String]) -> Option<String> {
                     }
                 }
                 let mut c = Element::new(name.clone(), at);
-                let mut g = Element::new("g".to_string(), vec![]);
+                // "addn": the grandchild is called like one of the children, so that the name occurs at several positions
+                let mut g = Element::new(if o == "addn" { "a".to_string() } else { "g".to_string() }, vec![]);
                 g.text = Some(id.clone());
                 c.add_unique_child(g);
                 root.add_unique_child(c);
@@ -1643,7 +1682,7 @@ fn check_ops(ops: &[String]) -> Option<String> {
         }
         for (_, c) in &v.kids {
             // subtree preserved: the grandchild carrying the id text is still there
-            if c.kids.len() != 1 || c.kids[0].1.name != "g" || !c.kids[0].1.text {
+            if c.kids.is_empty() || (c.kids[0].1.name != "g" && c.kids[0].1.name != "a") || !c.kids[0].1.text {
                 return Some(format!("after step {step} ({op}) the subtree of child {:?} changed", c.name));
             }
         }
@@ -1688,7 +1727,7 @@ fn check_ops(ops: &[String]) -> Option<String> {
 }
 fn search_c16(tier: &str, _seed: u64) {
     let mut stats = Stats::new();
-    let alphabet: Vec<String> = ["add:a", "add:b", "opt:a", "opt:b", "rem:a", "rem:b", "readd", "attr:k", "multi", "text"].iter().map(|s| s.to_string()).collect();
+    let alphabet: Vec<String> = ["add:a", "add:b", "addn:b", "opt:a", "opt:b", "rem:a", "readd", "down:a", "cmul:a", "ctext:a", "attr:k", "text"].iter().map(|s| s.to_string()).collect();
     let maxlen = if tier == "thorough" { 6 } else { 5 };
     let mut sample = String::new();
     let mut idx = vec![0usize; 0];
@@ -1741,7 +1780,7 @@ fn search_c16(tier: &str, _seed: u64) {
     let mut rng = Rng(_seed ^ 0xc16);
     let mut big: Vec<String> = ["readd", "attr:k", "multi", "text"].iter().map(|s| s.to_string()).collect();
     for nm in ["a", "b", "c", "d", "e", "f", "g", "h"] {
-        for op in ["add", "add", "addw", "opt", "rem"] {
+        for op in ["add", "addn", "addw", "opt", "opt", "rem", "cmul", "ctext", "down"] {
             big.push(format!("{op}:{nm}"));
         }
     }
@@ -1757,7 +1796,23 @@ fn search_c16(tier: &str, _seed: u64) {
             break;
         }
     }
-    stats.print(&format!("EXHAUSTIVE: all sequences of length <= {maxlen} over the operations add a|b (fresh child with an identifying subtree), mark optional a|b, remove a|b, re-add the last removed child, merge attribute, set multiple, set text; compared after every step with an ordered-map model; rendering checked at the end; then seeded random sequences of 6-24 operations over eight names (children with one or seven attributes)"), &sample);
+    // trees of any shape and depth (built by the parser through the same operations): unique names at every level and
+    // renderer-vs-tree conformance
+    let mut hit = false;
+    sequences(tier, _seed, |xs| {
+        let key = xs.iter().map(|x| String::from_utf8_lossy(x).into_owned()).collect::<Vec<_>>().join("\u{1}");
+        stats.note(&key);
+        match std::panic::catch_unwind(|| check_docs("C16", xs)) {
+            Ok(Some(e)) => {
+                witness_docs("C16", xs, &e);
+                hit = true;
+                true
+            }
+            _ => false,
+        }
+    });
+    let _ = hit;
+    stats.print(&format!("EXHAUSTIVE: all sequences of length <= {maxlen} over the operations add a|b (fresh child with an identifying subtree; b's grandchild is called a), mark optional a|b, remove a|b, re-add the last removed child, merge attribute, set multiple, set text, child set multiple a|b, child set text a, move child a below child b, add c; compared after every step with an ordered-map model; rendering checked at the end; then seeded random sequences of 6-24 operations over eight names (children with one or seven attributes); then the trees of the document sequences used for the parser properties (any shape and depth): unique names at every level, renderer-vs-tree conformance"), &sample);
 }
 
 // ------------------------------------------------------------------------------------------------ main
